@@ -13,6 +13,8 @@
               8 QuotaDelete name
               9 Reset
              10 Node*       (cluster total only)
+             11 SetScaleMinEnabled flag | 12 SetClusterTotal cpu mem | 13 RefreshRuntime name
+                (runtime / AutoScaleMin side only: OpNode, no effect on the accounting figures)
    observable: after every operation the summaries of all quotas in ascending name order:
             nq, then per quota  name parent isParent lend max(2) min(2) request(2) childRequest(2)
             selfRequest(2) nonPreemptibleRequest(2) selfNonPreemptibleRequest(2) used(2) selfUsed(2)
